@@ -255,7 +255,7 @@ def nfEqField (f : Field) (a b : GoVal) : Bool :=
           else nfEqFields sub (structOf p) (structOf q)
     | .primitiveMap =>
       (mapElems x).length == (mapElems y).length &&
-        (mapElems x).all fun (k, p) => match (mapElems y).lookup k with | some q => primNfEq false p q | none => false
+        (mapElems x).all fun (k, p) => match (mapElems y).lookup k with | some q => primNfEq info.isNullable p q | none => false
     | .objectMap =>
       (mapElems x).length == (mapElems y).length &&
         (mapElems x).all fun (k, p) => match (mapElems y).lookup k with
